@@ -139,7 +139,7 @@ class Database(KGLambda):
 
         # add the table column -> dataframe into local scope so DuckDB can reference them by name in the SQL.
         for k,v in self.tables.items():
-            locals()[k] = v.get_dataframe()
+            self.con.register(k, v.get_dataframe())
 
         try:
             df = self.con.execute(x).fetchdf()
